@@ -204,6 +204,31 @@ def run_shard(spec, tier, seed):
             detg = {"a": a_l.describe(), "gamma": mpmath.nstr(gm, 25), "label": alab}
             J.vec("boostX(gamma=g)=boostX(beta=sign(g)sqrt(1-1/g^2))", cell,
                   getattr(A, meth)(gamma=mode.num(gm)), getattr(A, meth)(beta=mode.num(bg)), unit, detg, gain=g2g * 4)
+        # ------------------------------------------------------------------ the gamma that is asked for is the gamma applied,
+        # at float64 accuracy: the result equals the 60-digit reference to a few hundred roundings of its own size
+        # (|gamma| x unit), for Lorentz factors up to 1e6.  (Going through beta = sqrt(1 - 1/gamma^2) and back costs
+        # gamma^2 roundings and is what this law is there to notice.)
+        if not mode.mp and not mild:
+            eps = mpf(2) ** -52
+            for i, ax in enumerate("XYZ"):
+                g = mpf(float(r.choice([1, -1]) * mpf(10) ** gen.dyadic(r, 0.5, 6, bits=8)))
+                ea = mode.exact(a_l)
+                try:
+                    got, gsys = L.rv_of(getattr(A, "boost" + ax)(gamma=float(g)))
+                    exp = R.op_boost_axis_gamma(ea, i, g)
+                except Exception as e:
+                    res.violation(f"C09/exception-in-large-gamma-boost backend={mode.name}",
+                                  {"cell": f"{R.sysname(vsys)}|{ax}", "exc": repr(e)[:200], "gamma": mpmath.nstr(g, 17)})
+                    continue
+                res.evaluations += 1
+                scale = abs(g) * L.maxabs(ea)
+                err = max(abs(p - q) for p, q in zip(got.comps(), exp.comps())) / (scale * eps)
+                res.err(f"{mode.name}:boostX(gamma) error in roundings of |gamma| x unit", err)
+                if not err <= 2048:
+                    res.violation(f"C09/law-broken law=boostX(gamma=g) applies the Lorentz factor g at float64 accuracy backend={mode.name}",
+                                  {"cell": f"{R.sysname(vsys)}|{ax}", "a": a_l.describe(), "gamma": mpmath.nstr(g, 17),
+                                   "error_in_roundings_of_gamma_x_unit": mpmath.nstr(err, 6), "got": repr(got), "expected": repr(exp)})
+                res.cell("boostX(gamma=g) applies g at float64 accuracy", R.sysname(vsys), ax, mode.name)
         if di == 0:
             res.sample({"vector": a_l.describe(), "second": b_l.describe(), "mode": mode.name, "label": alab,
                         "laws_checked_so_far": res.evaluations})
